@@ -5,6 +5,7 @@ C12 Stereo signs are permutation-consistent (table clauses proved; ladders, mark
 from ..r_stereo import rule_tetrahedron_table, rule_alkene_table, rule_ladders, rule_stereo_cache_set
 from ..r_codebooks import rule_mark_parity
 from ..r_protocol import run_protocol
+from ..r_alias import rule_no_stale_alias, rule_fix_stereo_exit, rule_row_order
 
 LEVEL = 'other'
 
@@ -19,5 +20,8 @@ def run(ck, repo):
     rule_ladders(ck, repo, table)
     rule_mark_parity(ck, repo, 'C12.D4-mark-parity')
     rule_stereo_cache_set(ck, repo)
+    rule_no_stale_alias(ck, repo, 'C12.D5-no-stale-alias')
+    rule_fix_stereo_exit(ck, repo, 'C12.D5-fix_stereo-exit')
+    rule_row_order(ck, repo, 'C12.D5-row-order')
     # labels are kept only on centres that are stereogenic: every structural change reaches fix_stereo
     run_protocol(ck, repo, 'C12.D5-fix_stereo-reached', only_dims={'STEREO'})
